@@ -722,6 +722,13 @@ def gen_args(rng, K, gen, spec):
 
 
 # ------------------------------------------------------------------------------------------------ plumbing
+def spread_seed(seed):
+    """vf.Rng(seed) and vf.Rng(seed + 1) produce the same SplitMix64 stream shifted by one draw, so consecutive VERIF_SEED
+    values would generate almost the same cases; hash the seed first so that different seeds give unrelated streams"""
+    import hashlib
+    return int.from_bytes(hashlib.sha256(b"C06:%d" % seed).digest()[:8], "big")
+
+
 def source_threshold():
     txt = open(os.path.join(vf.REPO, "src/kernel/recint/recdefine.h")).read()
     m = re.search(r"#define\s+__RECINT_THRESHOLD_KARA\s+(\d+)", txt)
@@ -848,7 +855,7 @@ vf.load_known = _load_known
 
 def main(tier, replay=None):
     chk = vf.Check("C06", tier, "proof")
-    rng = vf.Rng(chk.seed)
+    rng = vf.Rng(spread_seed(chk.seed))
     thr = source_threshold()
     chk.cov["trusted_base"] = [
         "Coq 8.16.1 kernel + vm_compute (no native_compute)",
@@ -885,7 +892,7 @@ def main(tier, replay=None):
         cases = [(f["case"]["variant"], f["case"]["K"], [int(x, 0) for x in f["case"]["args"]]) for f in rp.get("failing_inputs", [])
                  if f.get("case", {}).get("variant") in VARIANTS]
         if not cases:
-            cases = build_cases(vf.Rng(rp.get("seed", chk.seed)), tier)
+            cases = build_cases(vf.Rng(spread_seed(rp.get("seed", chk.seed))), tier)
     else:
         cases = build_cases(rng, tier)
     line = lambda name, K, a: "%s %d %d %s\n" % (name, K, thr, " ".join(fmt_arg(x) for x in a))
